@@ -230,6 +230,17 @@ class World:
             if not state_equal(before, model_state(m)):
                 f.append((f"forward/{step['model']}/state-changed", "a forward outside any Calibration context changed a parameter, buffer, scale, qtype or flag"))
                 self.models.pop(step["model"], None)
+                return f
+            # any input: a batch of another float dtype (accepted or refused, it must not leave a trace either)
+            other = [torch.bfloat16, torch.float16, torch.float64][step.get("seed", 0) % 3]
+            with torch.no_grad():
+                cut(m, x.to(other))
+                y3 = cut(m, x)
+            if not state_equal(before, model_state(m)):
+                f.append((f"forward/{step['model']}/state-changed-by-other-dtype-input", f"a forward on a {other} batch changed a parameter, buffer, scale, qtype or flag of the model"))
+                self.models.pop(step["model"], None)
+            elif isinstance(y3, Raised) or not torch.equal(y3.dequantize() if isinstance(y3, QTensor) else y3, d1):
+                f.append((f"forward/{step['model']}/not-repeatable", "evaluating the same input again after a batch of another dtype gives another result"))
         elif op == "new_module":
             if self.stack:
                 return f
